@@ -463,3 +463,74 @@ def _mk_uplink(name):
 
 for _n in ("uplink_icao", "uf", "bds", "pr", "ic", "lockout", "uplink_fields"):
     CALLS["uplink." + _n] = _mk_uplink(_n)
+
+
+# ---- C17: stateful runs of the live table ----
+_CB_KEYS = ("tas", "roll", "rtrk", "trk50", "gs50", "ias", "hdg", "mach", "roc60baro", "roc60ins", "hum44", "p44", "temp44",
+            "turb44", "wind44", "t50", "t60")
+
+
+def _slot(ac, oe):
+    if oe in ac and ("t%d" % oe) in ac:
+        f = bytes.fromhex(ac[oe])
+        from . import gen
+        fl = list(f)
+        return {"has": 1, "t": round(ac["t%d" % oe] * 2), "yz": gen.get_bits(fl, 55, 71), "xz": gen.get_bits(fl, 72, 88),
+                "tc": fl[4] >> 3}
+    return {"has": 0, "t": 0, "yz": 0, "xz": 0, "tc": 0}
+
+
+def _project(acs):
+    out = []
+    seen = {}
+    dup = 0
+    for key, ac in acs.items():
+        try:
+            addr = int(key, 16)
+        except (TypeError, ValueError):
+            addr = -1
+        if addr in seen:
+            dup = 1
+        seen[addr] = 1
+        hp = 1 if ("tpos" in ac and ac.get("lat") is not None and ac.get("lon") is not None) else 0
+        latlon = (ac["lat"], ac["lon"]) if hp else (0.0, 0.0)
+        e = {"addr": addr, "live": ac["live"] if isinstance(ac.get("live"), int) else -1, "hp": hp,
+             "tpos": round(ac["tpos"] * 2) if hp else 0,
+             "posA": enc.pos(latlon, "air"), "posS": enc.pos(latlon, "surf"),
+             "r": round(latlon[0] * 1048576 / 360), "s": round(latlon[1] * 1048576 / 360),
+             "e": _slot(ac, 0), "o": _slot(ac, 1),
+             "cb": 1 if any(ac.get(k) is not None for k in _CB_KEYS) else 0}
+        out.append(e)
+    out.sort(key=lambda x: x["addr"])
+    return out, dup
+
+
+@reg("tracker.run")
+def _tracker_run(pm, v):
+    from pyModeS.streamer.decode import Decode
+    rx = v["rx"]
+    d = Decode(latlon=(360.0 * rx[1] / 1048576, 360.0 * rx[2] / 1048576) if rx[0] else None)
+    lower = v.get("lower", 0)
+
+    def hexof(m):
+        s = bytes(m["f"]).hex()
+        if lower == 0:
+            return s.upper()
+        if lower == 1:
+            return s
+        return s.upper() if (m["t"] + len(s)) % 2 else s
+
+    steps = []
+    for call in v["script"]:
+        exc = 0
+        try:
+            d.process_raw([m["t"] / 2.0 for m in call["adsb"]], [hexof(m) for m in call["adsb"]],
+                          [m["t"] / 2.0 for m in call["commb"]], [hexof(m) for m in call["commb"]],
+                          tnow=call["tnow"] / 2.0)
+        except Exception as ex:  # noqa: BLE001
+            exc = 1
+            steps.append({"post": [], "dup": 0, "exc": 1, "err": enc.text(type(ex).__name__ + ": " + str(ex)[:80])})
+            break
+        post, dup = _project(d.get_aircraft())
+        steps.append({"post": post, "dup": dup, "exc": exc})
+    return {"t": "steps", "v": steps}
